@@ -112,7 +112,7 @@ func runC14(c *Ctx) {
 		checkCloseEvent(c, chRun)
 	}
 	if rd := c.Fn("root", "Channel.runReader"); rd != nil {
-		checkReaderLoop(c, rd)
+		checkReaderLoop(c, rd, "R10.4")
 	}
 
 	// R14.3
